@@ -19,15 +19,18 @@ fallback = {  # changes whose violation is only observable through another prope
  "C09-w6m2": ["C11"],                       # writer awaited only for WriteTimeout after a read error: two writers on one custom transport
  "C10-w7m2": ["C15"],                       # a scratch buffer shared by all channels through the dialect: a data race
  "C11-w7m1": ["C08"],                       # forwarded frames re-encoded by the node's version (the tag message has no trailing zeros; C08 relay-valid)
+ "C02-w9m2": ["C15"], "C06-w9m2": ["C15"], "C09-w9m1": ["C15"],  # wave 9: package-level scratch buffers again (checksum header, signature input, writer's marshal buffer)
+ "C11-w9m1": ["C08"],                       # forwarded frames re-encoded by the node's version again
  "C09-w8m1": ["C15"],                       # one package-level checksum hasher again: a data race
 }
+MATCH = os.environ.get("VERIF_SWEEP_MATCH", "")   # substring filter, e.g. -w9 for one wave
 pref = sys.argv[1] if len(sys.argv) > 1 else ""
 out = {}
 if os.path.exists(RESULTS):
     out = json.load(open(RESULTS))
 for d in sorted(glob.glob("/verif/seeded/*/")):
     name = os.path.basename(d.rstrip("/"))
-    if not name.startswith(pref) or not os.path.exists(d + "patch.diff"):
+    if not name.startswith(pref) or MATCH not in name or not os.path.exists(d + "patch.diff"):
         continue
     prop = name.split("-")[0]
     props = [prop]
